@@ -97,6 +97,22 @@ class History:
             if os.path.exists(f):
                 os.remove(f)
 
+    def snapshot(self, name):
+        """Copy the on-disk state (files + acknowledgements) aside; `restore` puts it back."""
+        dst = os.path.join(os.path.dirname(self.srv.dir), 'snap_' + name)
+        shutil.rmtree(dst, ignore_errors=True)
+        shutil.copytree(self.srv.dir, os.path.join(dst, 'cf'))
+        if os.path.exists(self.ack):
+            shutil.copy(self.ack, os.path.join(dst, 'ack.txt'))
+        return dst
+
+    def restore(self, snap):
+        self.clean()
+        for f in os.listdir(os.path.join(snap, 'cf')):
+            shutil.copy(os.path.join(snap, 'cf', f), os.path.join(self.srv.dir, f))
+        if os.path.exists(os.path.join(snap, 'ack.txt')):
+            shutil.copy(os.path.join(snap, 'ack.txt'), self.ack)
+
     def acks(self):
         """list of (save index in its process, checkpoint id) acknowledged so far, over all processes."""
         if not os.path.exists(self.ack):
@@ -210,6 +226,10 @@ def _short(s):
 def partA(unit):
     _, fmt, kind, save_idx, depth, tier = unit[:6]
     tears1, tears2, saves2 = unit[6:9] if len(unit) > 6 else ('all', 'all', 2)
+    shard, nshards = unit[9:11] if len(unit) > 9 else (0, 1)
+    mode = unit[11] if len(unit) > 11 else 'both'  # 'l1': first crash only (sharded over crash points);
+    # 'l2': discover the abstract dead states with a pass over all operations (no torn writes) and expand, after a
+    # resume, those states whose discovery index falls into this shard
     wd = tempfile.mkdtemp(prefix='c18_', dir=os.environ.get('VERIF_WORKDIR'))
     srv = Server(wd)
     viol, keys, outcomes = [], set(), set()
@@ -230,7 +250,10 @@ def partA(unit):
             return dict(evaluations=1, samples=[dict(note='only %d saves' % n_saves)])
         seen = set()
         # level 1: fresh run killed inside save `save_idx`
-        level1 = [[['fresh', [save_idx, n, t, o]]] for (n, t, o) in crash_points(logs[save_idx], tears1)]
+        level1 = [[['fresh', [save_idx, n, t, o]]] for (n, t, o) in crash_points(logs[save_idx], tears1 if mode != 'l2' else 'none')]
+        if mode != 'l2':
+            level1 = level1[shard::nshards]
+        snaps = {}
         frontier = []
         for h in level1:
             hist.clean()
@@ -248,15 +271,23 @@ def partA(unit):
             if ab not in seen:
                 seen.add(ab)
                 frontier.append(h)
+                snaps[json.dumps(h)] = hist.snapshot('%d' % len(snaps))
             if not samples:
                 samples.append(dict(part='A', fmt=fmt, kind=kind, history=h, files=[_short(s) for s in st], acknowledged=last))
+        if mode == 'l2':
+            frontier = frontier[shard::nshards]
         # deeper levels: resume, crash in the first / second save after the resume
-        for d in range(1, depth):
+        for d in range(1, depth if mode != 'l1' else 1):
             new = []
             for h in frontier:
                 # op logs of the saves of the resumed process: record once per abstract state
-                hist.clean()
-                _replay(hist, h)
+                snap = snaps.get(json.dumps(h))
+                if snap is not None:
+                    hist.restore(snap)  # the files (and acknowledgements) left by the history h
+                else:
+                    hist.clean()
+                    _replay(hist, h)
+                    snap = snaps[json.dumps(h)] = hist.snapshot('%d' % len(snaps))
                 rec2 = os.path.join(wd, 'oplog_r%d_%d' % (d, len(new)))
                 r = hist.run(('resume', None), record=rec2)
                 if r['exit'] == 'nothing-to-resume':
@@ -267,8 +298,7 @@ def partA(unit):
                 for s2 in range(1, min(n2, saves2) + 1):
                     for (n, t, o) in crash_points(read_oplog(rec2, s2), tears2):
                         h2 = h + [['resume', [s2, n, t, o]]]
-                        hist.clean()
-                        _replay(hist, h)
+                        hist.restore(snap)
                         r = hist.run(('resume', (s2, n, t)))
                         ev += 1
                         trans += 1
@@ -282,6 +312,8 @@ def partA(unit):
                         if (d, ab) not in seen:
                             seen.add((d, ab))
                             new.append(h2)
+                            if d + 1 < depth:
+                                snaps[json.dumps(h2)] = hist.snapshot('%d' % len(snaps))
             frontier = new
         states_n = len(seen)
     finally:
@@ -304,9 +336,19 @@ def units(tier, seed, label):
                     # HDF5 saves consist of ~100 pwrite operations: quick = every operation of the 1st and 2nd save,
                     # torn writes at half length, second crash (after resume) before every operation of the first save
                     if s <= 2:
-                        us.append(('A', fmt, kind, s, 2 if s == 2 else 1, tier, 'mid', 'none', 1))
+                        for sh in range(4):
+                            us.append(('A', fmt, kind, s, 1, tier, 'mid', 'none', 1, sh, 4, 'l1'))
+                    if s == 2:
+                        for sh in range(6):
+                            us.append(('A', fmt, kind, s, 2, tier, 'mid', 'none', 1, sh, 6, 'l2'))
+                elif fmt == 'pkl':
+                    us.append(('A', fmt, kind, s, 2 if tier == 'quick' else 3, tier, 'all', 'all', 2, 0, 1, 'both'))
                 else:
-                    us.append(('A', fmt, kind, s, 2 if tier == 'quick' else 3, tier, 'all', 'all', 2))
+                    for sh in range(8):
+                        us.append(('A', fmt, kind, s, 1, tier, 'all', 'all', 2, sh, 8, 'l1'))
+                    for sh in range(4):
+                        us.append(('A', fmt, kind, s, 3, tier, 'all', 'all', 2, sh, 4, 'l2'))
+    us.sort(key=lambda u: (len(u) > 11 and u[11] == 'l2', u[1] == 'h5'), reverse=True)
     for (name, simcls, params) in partB_configs(tier):
         for fmt in ('pkl',) if tier == 'quick' else ('pkl', 'h5'):
             us.append(('B', name, simcls, params, fmt, tier))
